@@ -26,7 +26,7 @@ Section RangeSim.
 
   Lemma mcts_simulate_range : forall fuel d sn s tr sn' ret tr' st,
     d < h -> trace_ok A tr -> rewards_in R tr -> length (acts sn) = A -> tree_all_d RI d sn ->
-    mcts_simulate A term disc rl_fixed fuel h d sn s tr = (sn', ret, tr', st) ->
+    mcts_simulate (fun _ => A) term disc rl_fixed fuel h d sn s tr = (sn', ret, tr', st) ->
     tree_all_d RI d sn' /\ in_pm (vbound R disc h d) ret /\ rewards_in R tr' /\ trace_ok A tr' /\
     length (acts sn') = A.
   Proof.
@@ -40,7 +40,7 @@ Section RangeSim.
       destruct ((d + 1 <? h) && negb (term (es1 e))) eqn:Eif.
       + apply andb_prop in Eif. destruct Eif as [Elt _]. apply Nat.ltb_lt in Elt.
         destruct (find_kid (es1 e) (kids (nth (ea e) (acts sn) act0))) as [c|] eqn:Ef.
-        * destruct (mcts_simulate A term disc rl_fixed fuel h (d + 1) (allocate A c) (es1 e) tr1) as [[[c' fr] tr2] st0] eqn:Er.
+        * destruct (mcts_simulate (fun _ => A) term disc rl_fixed fuel h (d + 1) (allocate A c) (es1 e) tr1) as [[[c' fr] tr2] st0] eqn:Er.
           inversion H; subst sn' ret tr' st; clear H.
           assert (Hc : tree_all_d RI (S d) c).
           { eapply rin_old_kid; [exact Hg | exact Hea' | apply find_kid_In; exact Ef]. }
@@ -68,12 +68,12 @@ Section RangeSim.
 
   Lemma mcts_loop_range : forall iters g s tr g' tr' sts,
     0 < h -> trace_ok A tr -> rewards_in R tr -> length (acts g) = A -> tree_all_d RI 0 g ->
-    mcts_loop A term disc rl_fixed iters h g s tr = (g', tr', sts) -> tree_all_d RI 0 g'.
+    mcts_loop (fun _ => A) term disc rl_fixed iters h g s tr = (g', tr', sts) -> tree_all_d RI 0 g'.
   Proof.
     induction iters as [|i IH]; intros g s tr g' tr' sts Hh Htr Hrw Hlen Hg H; cbn [mcts_loop] in H.
     - inversion H; subst g' tr' sts; auto.
-    - destruct (mcts_simulate A term disc rl_fixed h h 0 g s tr) as [[[g1 r1] tr1] st1] eqn:E1.
-      destruct (mcts_loop A term disc rl_fixed i h g1 s tr1) as [[g2 tr2] sts2] eqn:E2.
+    - destruct (mcts_simulate (fun _ => A) term disc rl_fixed h h 0 g s tr) as [[[g1 r1] tr1] st1] eqn:E1.
+      destruct (mcts_loop (fun _ => A) term disc rl_fixed i h g1 s tr1) as [[g2 tr2] sts2] eqn:E2.
       inversion H; subst g' tr' sts; clear H.
       destruct (mcts_simulate_range _ _ _ _ _ _ _ _ _ Hh Htr Hrw Hlen Hg E1) as [G [_ [Rw [Tk L]]]].
       eapply IH; eauto.
@@ -81,13 +81,13 @@ Section RangeSim.
 
   Lemma mcts_run_range : forall iters g s tr g' a tr' sts,
     trace_ok A tr -> rewards_in R tr -> length (acts g) = A -> tree_all_d RI 0 g ->
-    mcts_runSimulation A term disc rl_fixed iters h g s tr = (g', a, tr', sts) -> tree_all_d RI 0 g'.
+    mcts_runSimulation (fun _ => A) term disc rl_fixed iters h g s tr = (g', a, tr', sts) -> tree_all_d RI 0 g'.
   Proof.
     intros iters g s tr g' a tr' sts Htr Hrw Hlen Hg H. unfold mcts_runSimulation in H.
     destruct (Nat.eqb h 0) eqn:Eh.
     - inversion H; subst g' a tr' sts. auto.
     - apply Nat.eqb_neq in Eh.
-      destruct (mcts_loop A term disc rl_fixed iters h g s tr) as [[g2 tr2] sts2] eqn:E2.
+      destruct (mcts_loop (fun _ => A) term disc rl_fixed iters h g s tr) as [[g2 tr2] sts2] eqn:E2.
       inversion H; subst g' a tr' sts; clear H.
       assert (Hh : 0 < h) by lia. eapply mcts_loop_range; eauto.
   Qed.
@@ -185,7 +185,7 @@ Lemma mcts_range_lemma : forall A term disc R iters g hp op tr g' a tr' sts,
   0 < A -> (0 <= R)%Q -> (0 <= disc)%Q -> trace_ok A tr -> rewards_in R tr ->
   counts_ok g /\ mean_ok g /\ shape_ok A g ->
   tree_all_d (rets_in R disc hp) 0 g -> hp <= mop_h' op + 1 ->
-  mcts_op A term disc rl_fixed iters g op tr = (g', a, tr', sts) ->
+  mcts_op (fun _ => A) term disc rl_fixed iters g op tr = (g', a, tr', sts) ->
   tree_all_d (rets_in R disc (mop_h' op)) 0 g' /\ tree_all_d (value_in R disc (mop_h' op)) 0 g'.
 Proof.
   intros A term disc R iters g hp op tr g' a tr' sts HA HR Hd Htr Hrw Hgood Hri Hhp H.
@@ -196,7 +196,7 @@ Proof.
   assert (Hg' : tree_all (good A) g').
   { destruct (mcts_op_good A term disc rl_fixed HA _ _ _ _ _ _ _ _ Htr Hg H) as [X _]. exact X. }
   assert (Hr' : tree_all_d (rets_in R disc (mop_h' op)) 0 g').
-  { assert (Hfresh : forall s h, mcts_fresh A term disc rl_fixed iters s h tr = (g', a, tr', sts) ->
+  { assert (Hfresh : forall s h, mcts_fresh (fun _ => A) term disc rl_fixed iters s h tr = (g', a, tr', sts) ->
                                  tree_all_d (rets_in R disc h) 0 g').
     { intros s h E. unfold mcts_fresh in E.
       eapply (mcts_run_range A term R disc h HA HR Hd); try exact E; auto.
@@ -265,7 +265,7 @@ Qed.
 (* /repo today (rl_orig): horizon 2, unit rewards, no discount: the root estimate is 4 > 2 *)
 Lemma mcts_range_refuted_lemma : exists A term disc R iters s h tr g' a tr' sts,
   0 < A /\ (0 <= R)%Q /\ (0 <= disc)%Q /\ trace_ok A tr /\ rewards_in R tr /\
-  mcts_op A term disc rl_orig iters node0 (MFresh s h) tr = (g', a, tr', sts) /\
+  mcts_op (fun _ => A) term disc rl_orig iters node0 (MFresh s h) tr = (g', a, tr', sts) /\
   ~ tree_all_d (value_in R disc h) 0 g'.
 Proof.
   exists 1, (fun _ => false), 1%Q, 1%Q, 1, 0, 2.
